@@ -63,13 +63,14 @@ class RunInfo:
         for storage_id in [storage] if isinstance(storage, str) else storage.values():
             get_storage_class(storage_id)  # raises for unknown names before anything is touched
         run_folder = _maybe_run_folder(run_folder, storage)
+        # Includes `PipeFunc.internal_shape`s, like the `internal_shapes` stored by a previous run
+        internal_shapes = _construct_internal_shapes(internal_shapes, pipeline)
         if run_folder is not None:
             if cleanup:
                 _cleanup_run_folder(run_folder)
             else:
                 _compare_to_previous_run_info(pipeline, run_folder, inputs, internal_shapes)
         _check_inputs(pipeline, inputs)
-        internal_shapes = _construct_internal_shapes(internal_shapes, pipeline)
         shapes, masks = map_shapes(pipeline, inputs, internal_shapes)
         return cls(
             inputs=inputs,
